@@ -3,6 +3,7 @@ import FxVerif.Proofs.C12Handler
 import FxVerif.Proofs.C12Sig
 import FxVerif.Proofs.C12Env
 import FxVerif.Model.C12Genesis
+import FxVerif.Proofs.C12Msg
 /-!
 # C12 — a confirmation is stored only with the oracle's signature over the exact object
 
@@ -1360,5 +1361,312 @@ example :
     (roundTripConfirms st).map (·.key) = [.oracleSet 7, .batch "t" 3] := by decide
 
 end R4
+
+/-! ## 15. (round 5) the MESSAGE layer: `ValidateBasic` of the confirm messages and the address validators, regenerated -/
+
+section MessageLayer
+open FxVerif.Gen.C12Msg
+
+/-- how the translator read the message layer: each `ValidateBasic` ends in `return nil`, the router's two address styles
+dispatch to `ValidateEthereumAddress` / `ValidateTronAddress`, `ValidateExternalAddr` is router lookup + dispatch -/
+theorem message_layer_shape :
+    confirmValidateBasicTail.all (·.2 == "return nil") = true ∧
+    addrValidatorOf = [("EthereumAddress", "contract.ValidateEthereumAddress"), ("tronAddress", "ValidateTronAddress")] ∧
+    validateExternalAddrStmts.getLast? = some "return router.ValidateExternalAddr(addr)" := by decide
+
+/-- `ValidateBasic` of a confirm message (the regenerated check list of its type, interpreted check by check) returns nil
+EXACTLY when: the chain name is in the router, the bridger parses as bech32, the external address passes
+`ValidateExternalAddr` under the chain name, so does the token contract of a batch confirm, and the signature text is
+non-empty hex — for every message and whatever the three dependency predicates are -/
+theorem validate_basic_pass_iff (E : VbEnv) (t : TxConfirm) :
+    validateBasic E t = none ↔
+      E.registered t.chain = true ∧ E.bech32 t.m.bridger = true ∧ E.extAddr t.chain t.m.external = true ∧
+      (∀ tok n, t.m.key = .batch tok n → E.extAddr t.chain tok = true) ∧ ∃ s, t.m.sig = some s ∧ s ≠ [] :=
+  vb_pass_iff E t
+
+/-- a confirm delivered by a transaction is stored iff `ValidateBasic` passes AND the specified handler accepts (the handler
+being the fully regenerated one the driver runs) -/
+theorem tx_accept_iff (E : VbEnv) (tron : Bool) (recoverBy : String → List Nat → List Nat → Option String) (st st' : HState)
+    (t : TxConfirm) :
+    txStep E tron recoverBy st t = .ok st' ↔
+      validateBasic E t = none ∧ confirmStep (recoverBy (validatorOf tron)) st t.m = .ok st' := by
+  unfold txStep
+  rw [fully_generated_handler_is_specified]
+  cases hv : validateBasic E t <;> simp
+  cases hc : confirmStep (recoverBy (validatorOf tron)) st t.m <;> simp
+
+/-- the first statement of `ValidateConfirmSign` (hex decoding, error "signature decoding") can never be what rejects a
+message that passed `ValidateBasic`: the two layers decode the same field -/
+theorem validated_confirm_never_fails_decoding (E : VbEnv) (t : TxConfirm) (h : validateBasic E t = none) (tron : Bool)
+    (recoverBy : String → List Nat → List Nat → Option String) (st : HState) :
+    confirmStepGV tron recoverBy st t.m ≠ .error .sigDecode := by
+  obtain ⟨_, _, _, _, s, hs, _⟩ := (validate_basic_pass_iff E t).1 h
+  rw [fully_generated_handler_is_specified]
+  unfold confirmStep
+  rw [hs]
+  repeat' split
+  all_goals simp_all
+
+/-- both address validators (regenerated statement lists) end with the canonical-spelling comparison: a text they accept is
+non-empty and IS the rendering of what it parses to (EIP-55 checksummed hex / `EncodeCheck` base58) — whatever the format
+predicates and the re-rendering function are -/
+theorem accepted_address_is_canonical (tron : Bool) (P : AddrPrims) (text : String)
+    (h : addrValid P (addrChecksOf tron) text = true) : P.canon text = text ∧ text ≠ "" :=
+  addr_canonical tron P text h
+
+/-- hence two admitted texts of ONE address are one text: no second spelling of a token contract or of an oracle's external
+address passes message validation -/
+theorem accepted_spellings_of_one_address_equal {α : Type} (tron : Bool) (P : AddrPrims) (parse : String → α) (render : α → String)
+    (hP : ∀ t, P.canon t = render (parse t)) (t1 t2 : String)
+    (h1 : addrValid P (addrChecksOf tron) t1 = true) (h2 : addrValid P (addrChecksOf tron) t2 = true)
+    (hp : parse t1 = parse t2) : t1 = t2 := by
+  have a := (accepted_address_is_canonical tron P t1 h1).1
+  have b := (accepted_address_is_canonical tron P t2 h2).1
+  rw [hP] at a b
+  rw [← a, ← b, hp]
+
+/-- after ANY sequence of confirm TRANSACTIONS (ValidateBasic with the chain's regenerated address validator, then the
+regenerated handler), object stores, registry writes and prunings: every stored confirmation names its external address and
+(batch) its token contract in the canonical spelling -/
+theorem tx_stored_confirms_name_canonical_texts (tron : Bool) (P : AddrPrims) (reg b32 : String → Bool)
+    (recoverBy : String → List Nat → List Nat → Option String) (ops : List TxOp) :
+    CanonEntries P (txRun (envOf tron P reg b32) tron recoverBy {} ops) := by
+  have stepInv : ∀ st op, CanonEntries P st → CanonEntries P (txApply (envOf tron P reg b32) tron recoverBy st op) := by
+    intro st op h
+    cases op with
+    | other o => exact canon_stepOther P st o h
+    | tx t =>
+      simp only [txApply]
+      cases hx : txStep (envOf tron P reg b32) tron recoverBy st t with
+      | error _ => exact h
+      | ok st' =>
+        obtain ⟨hv, hc⟩ := (tx_accept_iff _ tron recoverBy st st' t).1 hx
+        obtain ⟨_, _, he, ht, _⟩ := (validate_basic_pass_iff _ t).1 hv
+        exact canon_confirmStep P _ st st' t.m hc (accepted_address_is_canonical tron P _ he).1
+          (fun tok n hk => (accepted_address_is_canonical tron P _ (ht tok n hk)).1) h
+  suffices ∀ st, CanonEntries P st → CanonEntries P (txRun (envOf tron P reg b32) tron recoverBy st ops) from
+    this {} (by intro e he; simp at he)
+  induction ops with
+  | nil => intro st h; exact h
+  | cons op r ih => intro st h; exact ih _ (stepInv st op h)
+
+/-- "at most one confirmation per oracle and object" at the level of the token contract ADDRESS, not only of its text: two
+stored batch confirmations whose token texts denote one address and whose nonces agree are filed under ONE key (and
+`one_confirm_per_oracle` allows one entry per key and oracle) -/
+theorem one_batch_confirm_per_oracle_and_token_address {α : Type} (tron : Bool) (P : AddrPrims) (parse : String → α)
+    (render : α → String) (hP : ∀ t, P.canon t = render (parse t)) (reg b32 : String → Bool)
+    (recoverBy : String → List Nat → List Nat → Option String) (ops : List TxOp) (e1 e2 : Entry)
+    (h1 : e1 ∈ (txRun (envOf tron P reg b32) tron recoverBy {} ops).confirms)
+    (h2 : e2 ∈ (txRun (envOf tron P reg b32) tron recoverBy {} ops).confirms)
+    (t1 t2 : String) (n : Nat) (k1 : e1.key = .batch t1 n) (k2 : e2.key = .batch t2 n) (hp : parse t1 = parse t2) :
+    e1.key = e2.key := by
+  have a := ((tx_stored_confirms_name_canonical_texts tron P reg b32 recoverBy ops) e1 h1).2 t1 n k1
+  have b := ((tx_stored_confirms_name_canonical_texts tron P reg b32 recoverBy ops) e2 h2).2 t2 n k2
+  rw [hP] at a b
+  rw [k1, k2, ← a, ← b, hp]
+
+/-- "submitted by that oracle's bridger", for SIGNED transactions: if the delivery of a transaction carrying a confirm is
+accepted (ante handler: signed by the account in the field the regenerated proto signer option names, of the OUTERMOST
+message; decoding; `ValidateBasic`; the regenerated handler), then the confirm was not wrapped in `MsgConfirm` (undecodable
+while `msgConfirmUnpacks = false` — so the wrapper's own, never-compared bridger field cannot stand in), passed
+`ValidateBasic`, and the transaction's signer IS the bridger of the oracle the external address is registered to -/
+theorem delivered_confirm_signed_by_oracles_bridger (E : VbEnv) (tron : Bool)
+    (recoverBy : String → List Nat → List Nat → Option String) (st st' : HState) (x : SignedTx)
+    (h : deliverTx E tron recoverBy st x = .ok st') :
+    x.wrapper = none ∧ validateBasic E x.t = none ∧
+    ∃ oracle r, st.byExternal.lookup x.t.m.external = some oracle ∧ st.oracles.lookup oracle = some r ∧
+      r.bridger = x.signer ∧ r.external = x.t.m.external ∧
+      confirmStep (recoverBy (validatorOf tron)) st x.t.m = .ok st' := by
+  unfold deliverTx at h
+  split at h
+  · cases h
+  · rename_i hs
+    have hs' : requiredSigner x = some x.signer := by simpa using hs
+    cases hw : x.wrapper with
+    | some b =>
+      rw [hw] at h
+      have : msgConfirmUnpacks = false := by decide
+      simp [this] at h
+    | none =>
+      rw [hw] at h
+      cases hx : txStep E tron recoverBy st x.t with
+      | error e => rw [hx] at h; cases h
+      | ok s2 =>
+        rw [hx] at h
+        cases h
+        obtain ⟨hv, hc⟩ := (tx_accept_iff E tron recoverBy st st' x.t).1 hx
+        obtain ⟨digest, sig, oracle, r, _, _, h3, h4, h5, h6, _, _, _⟩ := (confirm_accept_iff _ st st' x.t.m).1 hc
+        refine ⟨rfl, hv, oracle, r, h3, h4, ?_, h5, hc⟩
+        have hb : some x.t.m.bridger = some x.signer := by
+          rw [← hs']
+          unfold requiredSigner
+          rw [hw]
+          have : ∀ k, confirmSigners.lookup (msgTypeOf k) = some "bridger_address" := by
+            intro k; cases k <;> (simp only [msgTypeOf]; decide)
+          simp [this]
+        rw [h6]
+        exact Option.some.inj hb
+
+end MessageLayer
+
+/-! ## 16. (round 5) branches of the state: what is done on a DISCARDED branch (failed multi-message transaction, CheckTx,
+simulation) leaves no trace — the model has no memory outside the state -/
+
+/-- opening a branch, doing anything on it (object stores, registry writes, confirms, prunings) and discarding it gives back
+the very state and branch stack -/
+theorem discarded_branch_leaves_no_trace (recover : List Nat → List Nat → Option String) (st : HState) (stack : List HState)
+    (ops : List Op) : bRun recover (st, stack) (.branch :: ops.map .op ++ [.discard]) = (st, stack) := by
+  have : bRun recover (st, stack) (.branch :: ops.map .op ++ [.discard]) =
+      bRun recover (bRun recover (st, st :: stack) (ops.map .op)) [.discard] := by
+    rw [List.cons_append, ← bRun_append]; rfl
+  rw [this, bRun_ops]
+  rfl
+
+/-- … and committing it is running the operations in line -/
+theorem committed_branch_is_inline (recover : List Nat → List Nat → Option String) (st : HState) (stack : List HState)
+    (ops : List Op) : bRun recover (st, stack) (.branch :: ops.map .op ++ [.commit]) = (run recover st ops, stack) := by
+  have : bRun recover (st, stack) (.branch :: ops.map .op ++ [.commit]) =
+      bRun recover (bRun recover (st, st :: stack) (ops.map .op)) [.commit] := by
+    rw [List.cons_append, ← bRun_append]; rfl
+  rw [this, bRun_ops]
+  rfl
+
+/-- a history with a discarded branch in the middle IS the history without it -/
+theorem history_with_discarded_branch_is_history_without (recover : List Nat → List Nat → Option String)
+    (pre mid post : List Op) :
+    bRun recover ({}, []) (pre.map .op ++ (.branch :: mid.map .op ++ [.discard]) ++ post.map .op) =
+      (run recover {} (pre ++ post), []) := by
+  rw [bRun_append, bRun_append, bRun_ops, discarded_branch_leaves_no_trace, bRun_ops, run_append]
+
+/-- so every confirmation stored after such a history was verified against the object the SURVIVING history stored under its
+key (an object created and confirmed under the same key on the discarded branch plays no part), under the registered key and
+bridger of its oracle -/
+theorem stored_confirm_verified_across_discarded_branch (recover : List Nat → List Nat → Option String)
+    (pre mid post : List Op) (e : Entry)
+    (he : e ∈ (bRun recover ({}, []) (pre.map .op ++ (.branch :: mid.map .op ++ [.discard]) ++ post.map .op)).1.confirms) :
+    (run recover {} (pre ++ post)).ever.lookup e.key = some e.digest ∧ recover e.digest e.sig = some e.external ∧
+    e.recAt.external = e.external ∧ e.recAt.bridger = e.bridger := by
+  rw [history_with_discarded_branch_is_history_without] at he
+  obtain ⟨a, _, c, d⟩ := stored_confirm_verified recover (pre ++ post) e he
+  exact ⟨a, c, d, confirm_requires_bridger recover (pre ++ post) e he⟩
+
+/-! ## 17. (round 5) the `uint64` sum of the raw oracle powers in `GetCurrentOracleSet` -/
+
+section RawPowers
+open FxVerif.Gen.C12Msg FxVerif.Gen.C12Env
+
+/-- what the translator read: `Oracle.GetPower` is `DelegateAmount.Quo(sdk.DefaultPowerReduction)`, the reduction is assigned
+10^20 in `types/`, and the loop skips non-positive powers before `totalPower += power.Uint64()` -/
+theorem raw_power_source :
+    oraclePower = ("DelegateAmount", "Quo", "sdk.DefaultPowerReduction") ∧ powerReductionExp = (10, 20) ∧
+    totalPowerLoop = ["power := oracle.GetPower()", "if power.LTE(sdkmath.ZeroInt()) { continue }",
+      "totalPower += power.Uint64()", "bridgeValidators = append(…)"] := by decide
+
+/-- for EVERY list of delegated amounts whose sum is below 2^64 · 10^20 base units (≈ 1.8·10^19 whole tokens — the delegations
+are coins of a supply far below that): the `uint64` accumulation never wraps, is the true sum of the positive powers, and
+bounds each of them -/
+theorem raw_power_sum_does_not_wrap (ds : List Nat) (h : ds.sum < 2 ^ 64 * 10 ^ 20) :
+    rawTotal ds = (livePowers ds).sum ∧ rawTotal ds < 2 ^ 64 ∧ ∀ p ∈ livePowers ds, p ≤ rawTotal ds := by
+  have h1 := livePowers_sum_le ds
+  have h2 : ds.sum / 10 ^ 20 < 2 ^ 64 := (Nat.div_lt_iff_lt_mul (by decide)).2 h
+  have h3 : rawTotal ds = (livePowers ds).sum := by
+    unfold rawTotal
+    rw [foldl_mod_eq_sum _ 0 (by omega)]
+    omega
+  refine ⟨h3, by omega, fun p hp => ?_⟩
+  rw [h3]
+  exact mem_le_sum _ p hp
+
+/-- so the hypothesis "the sum of the raw powers does not wrap" of `normalised_powers_fit_int64` follows from the bound on the
+delegated coins: every member of the oracle set `GetCurrentOracleSet` builds gets a power of at most `math.MaxUint32` -/
+theorem normalised_powers_fit_from_delegations (ds : List Nat) (h : ds.sum < 2 ^ 64 * 10 ^ 20) (p : Nat) (hp : p ∈ livePowers ds) :
+    ∃ v, normPower p (rawTotal ds) = some v ∧ v ≤ 4294967295 := by
+  obtain ⟨h3, _, _⟩ := raw_power_sum_does_not_wrap ds h
+  have hpos : 0 < p := by
+    have := (List.mem_filter.1 hp).2
+    simpa using this
+  have hle := mem_le_sum _ p hp
+  obtain ⟨v, a, b, _⟩ := normalised_powers_fit_int64 (livePowers ds) p hp (by omega)
+  exact ⟨v, by rw [h3]; exact a, b⟩
+
+/-- without the bound the accumulation DOES wrap (two oracles with 2^63 · 10^20 each: total power 0) -/
+theorem raw_power_sum_wraps_when_unbounded : rawTotal [2 ^ 63 * 10 ^ 20, 2 ^ 63 * 10 ^ 20] = 0 := by
+  simp only [rawTotal, livePowers, List.map, rawPower_eq]
+  decide
+
+end RawPowers
+
+/-! ### non-vacuity of the round-5 theorems -/
+
+section R5
+open FxVerif.Gen.C12Msg
+
+private def exE : VbEnv := ⟨fun c => c == "eth", fun b => b == "fx1bridger", fun _ x => x == "0xAbC"⟩
+private def exP : AddrPrims := ⟨fun _ _ => true, fun t => if t == "0xabc" then "0xAbC" else t, fun _ => 5⟩
+
+/-- a batch confirm that passes `ValidateBasic`, one rejected for its token spelling, one for an empty signature -/
+example : validateBasic exE ⟨"eth", ⟨.batch "0xAbC" 3, "fx1bridger", "0xAbC", some [1]⟩⟩ = none ∧
+    (validateBasic exE ⟨"eth", ⟨.batch "0xabc" 3, "fx1bridger", "0xAbC", some [1]⟩⟩).map (·.text) = some "invalid token contract" ∧
+    (validateBasic exE ⟨"eth", ⟨.oracleSet 3, "fx1bridger", "0xAbC", some []⟩⟩).map (·.text) = some "empty signature" ∧
+    (validateBasic exE ⟨"bsc", ⟨.bridgeCall 3, "fx1bridger", "0xAbC", none⟩⟩).map (·.text) = some "unrecognized cross chain name" := by
+  decide
+
+/-- the address validators accept something and reject a non-canonical spelling (toy instance: length constant 5) -/
+example : addrValid exP (addrChecksOf true) "0xAbC" = true ∧ addrValid exP (addrChecksOf true) "0xabc" = false := by
+  simp [addrValid, addrChecksOf, addrValidatorOf, List.lookup, tronAddrChecks, addrCheckFails, lenArg, exP]
+  decide
+
+private def exSt : HState :=
+  { objects := [(.batch "0xAbC" 3, [1, 2])], oracles := [(1, ⟨"fx1bridger", "0xAbC"⟩)], byExternal := [("0xAbC", 1)] }
+
+/-- a confirm TRANSACTION that is stored (so `tx_accept_iff`, `tx_stored_confirms_name_canonical_texts` and
+`one_batch_confirm_per_oracle_and_token_address` speak about non-empty stores) -/
+example : ∃ st', txStep (envOf true exP (fun _ => true) (fun _ => true)) true (fun _ _ s => if s == [9] then some "0xAbC" else none)
+      exSt ⟨"tron", ⟨.batch "0xAbC" 3, "fx1bridger", "0xAbC", some [9]⟩⟩ = .ok st' ∧ st'.confirms.map (·.key) = [.batch "0xAbC" 3] := by
+  refine ⟨{ exSt with confirms := [⟨.batch "0xAbC" 3, 1, "fx1bridger", "0xAbC", [9], [1, 2], ⟨"fx1bridger", "0xAbC"⟩⟩] },
+    (tx_accept_iff _ _ _ _ _ _).2 ⟨?_, ?_⟩, rfl⟩
+  · rw [validate_basic_pass_iff]
+    simp [envOf, addrValid, addrChecksOf, addrValidatorOf, List.lookup, tronAddrChecks, addrCheckFails, lenArg, exP]
+    decide
+  · simp [confirmStep, hasConfirm, exSt]
+
+/-- deliveries: accepted when signed by the oracle's bridger; a stranger's signature fails the ante check; the wrapper is
+undecodable -/
+example :
+    let E := envOf true exP (fun _ => true) (fun _ => true)
+    let rec_ : String → List Nat → List Nat → Option String := fun _ _ s => if s == [9] then some "0xAbC" else none
+    let t : TxConfirm := ⟨"tron", ⟨.batch "0xAbC" 3, "fx1bridger", "0xAbC", some [9]⟩⟩
+    (∃ st', deliverTx E true rec_ exSt ⟨"fx1bridger", none, t⟩ = .ok st') ∧
+    deliverTx E true rec_ exSt ⟨"fx1stranger", none, t⟩ = .error .ante ∧
+    deliverTx E true rec_ exSt ⟨"fx1stranger", some "fx1stranger", t⟩ = .error .undecodable := by
+  intro E rec_ t
+  have hx : txStep E true rec_ exSt t = .ok { exSt with confirms := [⟨.batch "0xAbC" 3, 1, "fx1bridger", "0xAbC", [9], [1, 2], ⟨"fx1bridger", "0xAbC"⟩⟩] } := by
+    refine (tx_accept_iff _ _ _ _ _ _).2 ⟨?_, ?_⟩
+    · rw [validate_basic_pass_iff]
+      simp [E, t, envOf, addrValid, addrChecksOf, addrValidatorOf, List.lookup, tronAddrChecks, addrCheckFails, lenArg, exP]
+      decide
+    · simp [t, rec_, confirmStep, hasConfirm, exSt]
+  have hs : confirmSigners.lookup "MsgConfirmBatch" = some "bridger_address" ∧ confirmSigners.lookup "MsgConfirm" = some "bridger_address" ∧
+      msgConfirmUnpacks = false := by decide
+  refine ⟨⟨{ exSt with confirms := [⟨.batch "0xAbC" 3, 1, "fx1bridger", "0xAbC", [9], [1, 2], ⟨"fx1bridger", "0xAbC"⟩⟩] }, ?_⟩, ?_, ?_⟩
+  · simp [deliverTx, requiredSigner, msgTypeOf, hs.1, hx, t]
+  · simp [deliverTx, requiredSigner, msgTypeOf, hs.1, t]
+  · simp [deliverTx, requiredSigner, hs.2.1, hs.2.2]
+
+/-- a history with a discarded branch on which ANOTHER object was stored and confirmed under key 7: afterwards key 7 holds the
+surviving object and its confirmation -/
+example :
+    let rec_ : List Nat → List Nat → Option String := fun d s => if s == d then some "E" else none
+    ((bRun rec_ ({}, []) ([.op (.setOracle 1 ⟨"B", "E"⟩), .op (.setIndex "E" 1), .branch,
+      .op (.addObject (.oracleSet 7) [1]), .op (.confirm ⟨.oracleSet 7, "B", "E", some [1]⟩), .discard,
+      .op (.addObject (.oracleSet 7) [2]), .op (.confirm ⟨.oracleSet 7, "B", "E", some [1]⟩),
+      .op (.confirm ⟨.oracleSet 7, "B", "E", some [2]⟩)])).1.confirms.map (·.digest)) = [[2]] := by
+  decide
+
+example : rawTotal [3 * 10 ^ 20, 10 ^ 19, 5 * 10 ^ 20 + 7] = 8 ∧ livePowers [3 * 10 ^ 20, 10 ^ 19, 5 * 10 ^ 20 + 7] = [3, 5] := by
+  simp only [rawTotal, livePowers, List.map, rawPower_eq]
+  decide
+
+end R5
 
 end FxVerif.Props.C12
